@@ -384,7 +384,7 @@ def run(run: Run) -> int:
     world = World()
     ck = Checker(run, world, pfx="C07", report_raises=False)
     c7 = C07(run, world, ck)
-    n_prog = 30 if quick else 250
+    n_prog = 30 if quick else 900
     corpus_stats = {}
     try:
         progs = [corpus_program()] + [gen_c07_program(rng, world.tmpl) for _ in range(n_prog)]
